@@ -2,32 +2,47 @@
 from __future__ import annotations
 
 import itertools
+import json
 import re
+import time
 
 from .. import core
 from ..core import cstr, clist, cpair, cN, cbool, copt
 
 ID = "C11"
 THEOREM_FILE = "Properties/C11.v"
-IMPORTS = "From Annet Require Import Base.Str Model.Vlan Spec.P_C11."
+IMPORTS = "From Annet Require Import Base.Str Model.Vlan Model.VlanDb Spec.P_C11."
 TY = "case"
 META = {
     "text": "Proof: for every VLAN set (Python set = AVL set over N) expand(collapse(S)) = S for both range "
             "syntaxes, tiny_ranges on/off and every chunk length; for the models of huawei single/multi/multi_all "
-            "(with fixes/C11-huawei-undo-all.patch applied) and cisco simple/swtrunk, for all old/new lists written "
-            "as ranges split over any number of config lines (lines of the old list pairwise disjoint), every "
-            "permutation of the emitted add/remove commands turns S_old into exactly S_new and every prefix keeps "
-            "S_old & S_new. The shipped huawei multi_all/single shortcut is refuted by a Coq witness "
-            "(undo ... vlan all while other lines of the list stay). Correspondence: Coq evaluates model==implementation "
-            "(rows up to order) and the predicate on the rows really emitted by annet.api._diff_and_patch over the "
-            "shipped huawei/cisco/nexus rulebooks (device mode).",
+            "and cisco simple/swtrunk, for all old/new lists written as ranges split over any number of config lines "
+            "(lines of the old list pairwise disjoint), every permutation of the emitted add/remove commands turns "
+            "S_old into exactly S_new and every prefix keeps S_old & S_new. Huawei global VLAN database (`vlan batch` "
+            "wrapped over any number of lines + `vlan N` blocks with or without option rows; model of vlan_diff over "
+            "default_diff, mark_unchanged, multi, common.default): with S = batch lines + block ids, for every split of "
+            "the sets between batch lines and blocks, every permutation of the emitted `vlan batch` / `undo vlan batch` / "
+            "`vlan N` / `undo vlan N` commands turns S_old into S_new and no prefix drops a VLAN of S_old & S_new "
+            "(C11_db_final, C11_db_no_transient_loss), under the guard that a VLAN with a block in the new configuration "
+            "which was in the old batch is still in the new batch; without the guard the shipped code is refuted by a Coq "
+            "witness replayed on the real code (C11_db_block_leaves_batch_refuted, known finding). The shipped-before-fix "
+            "huawei multi_all/single shortcut is refuted by a Coq witness (undo ... vlan all while other lines stay). "
+            "Correspondence: Coq evaluates model==implementation (rows up to order, rows inside a `vlan N` patch block "
+            "included) and the predicates on the rows really emitted by annet.api._diff_and_patch over the shipped "
+            "huawei/cisco/nexus rulebooks.",
     "technique": "Coq induction over sorted element lists / command lists, MSet decision procedure; vm_compute "
                  "differential check on real patch rows parsed back into set effects by Coq",
-    "note": "Theorems are about the structured Gallina model (lines = range lists); its tie to the text-level model "
-            "(printing, _parse_vlancfg, row diff) and to /repo is the correspondence run (struct_is_text, agree, holds "
-            "evaluated by Coq on every case). Device mode only (_diff_and_patch); file mode strips unchanged rows "
-            "before make_pre (finding F2/C16). Not modelled: vlan blocks with children (cisco `vlan N / name`, "
-            "huawei vlan_diff) and the per-line keyed `vlan pool * / vlan *` rule. Trusted: Coq kernel + VM, harness "
+    "note": "Theorems are about the structured Gallina models (lines = range lists, blocks = id + option rows); their tie "
+            "to the text-level models (printing, _parse_vlancfg, row diff, vlan_diff's batch_new over every `vlan batch` "
+            "row) and to /repo is the correspondence run (struct_is_text, agree, holds and their _db counterparts, "
+            "evaluated by Coq on every case; for the VLAN database Coq reads the structured input back from the very rows "
+            "given to the implementation). The check drives annet.api._diff_and_patch (device mode); file mode "
+            "(_read_old_new_diff_patch) has been repaired (C16) and builds the patch the same way, make_pre over the "
+            "unstripped diff, so unchanged rows reach the rule logics in either mode. Device semantics of the commands (vlan batch / undo vlan batch / "
+            "vlan N / undo vlan N / undo ... all / none) are an assumption (Model.Vlan.step, Model.VlanDb.effect). "
+            "Option rows inside a huawei `vlan N` block: `name`, `description` and catch-all rows, no `undo ...` rows. "
+            "Not modelled: cisco/nexus `vlan N` blocks with option rows (same `vlan` rule as the list rows, no "
+            "diff_logic) and the per-line keyed huawei `vlan pool * / vlan *` rule. Trusted: Coq kernel + VM, harness "
             "generators/printers/runner.",
 }
 
@@ -358,8 +373,11 @@ def enc_case(i: int, c: dict, o: dict) -> str:
                      ";".join(enc_line(l) for l in c["new"]), given, out])
 
 
-def run_compact(cases: list[dict], outs: list[dict], per_file: int, tag: str = "compact") -> list[int]:
-    """indices of the cases on which agree && holds && struct_is_text is false (evaluated by Coq)"""
+def run_compact(cases: list[dict], outs: list[dict], per_file: int, tag: str = "compact", *,
+                enc=None, check: str = "check_data kinds", coded: bool = False) -> list:
+    """indices of the cases on which agree && holds && struct_is_text is false (evaluated by Coq);
+    coded: (index, fail code) pairs as computed by the Coq checker"""
+    enc = enc or enc_case
     import shutil
     from concurrent.futures import ThreadPoolExecutor
     d = core.BUILD / "cases" / ID / tag
@@ -375,7 +393,7 @@ def run_compact(cases: list[dict], outs: list[dict], per_file: int, tag: str = "
         # string constants of <= ~8 KB each (deeper literals overflow coqc's default stack)
         consts, cur, size = [], [], 0
         for i in range(k, min(len(cases), k + per_file)):
-            l = enc_case(i, cases[i], outs[i])
+            l = enc(i, cases[i], outs[i])
             if cur and size + len(l) > 8000:
                 consts.append("\n".join(cur))
                 cur, size = [], 0
@@ -385,22 +403,35 @@ def run_compact(cases: list[dict], outs: list[dict], per_file: int, tag: str = "
             consts.append("\n".join(cur))
         f = d / f"{tag}_{k // per_file}.v"
         f.write_text(head + "".join(f'Definition d{j} : string := "{b}".\n' for j, b in enumerate(consts)) +
-                     "Eval vm_compute in flat_map (check_data kinds) " +
+                     f"Eval vm_compute in flat_map ({check}) " +
                      clist(f"d{j}" for j in range(len(consts))) + ".\n")
         files.append((f, k, min(len(cases), k + per_file)))
 
     def one(job):
         f, lo, hi = job
-        p = core.coqc_file(f, timeout=1200)
+        for attempt in range(4):
+            p = core.coqc_file(f, timeout=1200)
+            # killed from outside (OOM killer on a crowded machine) with nothing on stderr: run the file again
+            if p.returncode in (-9, 137) and not p.stderr.strip() and attempt < 3:
+                time.sleep(3 * (attempt + 1))
+                continue
+            break
         if p.returncode != 0:
             raise core.CheckFailure(f"case file {f} failed to compile:\n{(p.stdout + p.stderr)[-3000:]}")
         parts = re.split(r"^\s*=\s", p.stdout, flags=re.M)[1:]
         if len(parts) != 1:
             raise core.CheckFailure(f"unexpected coqc output for {f}: {p.stdout[-2000:]}")
-        idx = [int(x) for x in re.findall(r"\d+", parts[0].split(":")[0])]
+        body = parts[0].rsplit(":", 1)[0]
+        if coded:
+            pairs = [(int(a), int(b)) for a, b in re.findall(r"\(\s*(\d+)%N,\s*(\d+)%N\s*\)", body)]
+            if len(pairs) != body.count("("):
+                raise core.CheckFailure(f"case file {f}: cannot read the checker's answer {body[:300]}")
+            idx = [i for i, _ in pairs]
+        else:
+            idx = [int(x) for x in re.findall(r"\d+", body)]
         if any(not lo <= i < hi for i in idx):
             raise core.CheckFailure(f"case file {f}: undecodable line or foreign index in {idx[:10]}")
-        return idx
+        return pairs if coded else idx
 
     bad: list[int] = []
     with ThreadPoolExecutor(max_workers=core.NPROC) as ex:
@@ -508,6 +539,326 @@ def process(ctx, cases: list[dict], stats: Stats, tag: str) -> None:
                 no_input=True))
 
 
+# ---------------------------------------------------------------------------------------
+# the Huawei global VLAN database: `vlan batch` lines (wrapped over several rows) and `vlan N` blocks
+# (Model.VlanDb; vlan_diff + multi + common.default over the shipped huawei rulebook)
+
+DB_HW = "Huawei CE6870"
+TY_DB = "case_db"
+PREDS_DB = {"agree": "agree_db", "holds": "holds_db", "struct_is_text": "struct_is_text_db"}
+# option rows of a block: the rules `name`, `description` (global) and rows no rule matches
+KID_STATES = [[], [], ["name a"], ["name a"], ["name b"], ["description d"], ["name a", "description d"],
+              ["name b", "description e"], ["statistic enable"], ["name a", "statistic enable"]]
+
+
+def wrap_device(rs: list, per_line: int = 10) -> list[list]:
+    """the device wraps a VLAN list after 10 ranges"""
+    return [rs[i:i + per_line] for i in range(0, len(rs), per_line)]
+
+
+def db_rows(parts, blocks) -> list:
+    rows = [line_text("hw_batch", (False, p)) for p in parts]
+    for n, kids in blocks:
+        rows.append([f"vlan {n}", list(kids)] if kids else f"vlan {n}")
+    return rows
+
+
+def mk_db_case(old_parts, new_parts, old_blocks, new_blocks, src: str, rng=None) -> dict:
+    c = {"kind": "hw_vlandb", "src": src,
+         "old": [(False, list(p)) for p in old_parts], "new": [(False, list(p)) for p in new_parts],
+         "old_blocks": [(int(n), list(k)) for n, k in old_blocks],
+         "new_blocks": [(int(n), list(k)) for n, k in new_blocks]}
+    for side in ("old", "new"):
+        rows = db_rows([p for _, p in c[side]], c[side + "_blocks"])
+        if rng is not None:
+            r = rng.random()
+            if r < 0.15:
+                rng.shuffle(rows)                      # blocks between / before the batch rows
+            elif r < 0.25:
+                nb = len(c[side])
+                rows = rows[nb:] + rows[:nb]           # blocks first
+        c[side + "_rows"] = rows
+    return c
+
+
+def db_payload(c: dict) -> dict:
+    return {"hw": DB_HW, "block": None, "old": c["old_rows"], "new": c["new_rows"]}
+
+
+def _vl(parts) -> set[int]:
+    return {v for p in parts for a, b in p for v in range(a, b + 1)}
+
+
+def gen_db_cases(ctx) -> list[dict]:
+    rng = ctx.rng("gen-db")
+    cases: list[dict] = []
+    iso = [(v, v) for v in range(100, 100 + 25 * 10, 10)]          # 25 isolated VLANs: three device lines
+    # corpus: tests/annet/test_patch/huawei_vlan_global_and_batch.yaml and multi-line variants of it
+    b5 = [[(333, 333), (688, 688), (700, 700), (788, 788), (999, 999)]]
+    b4 = [[(333, 333), (688, 688), (700, 700), (788, 788)]]
+    cases += [mk_db_case(b5, b5, [(999, [])], [], "corpus"), mk_db_case(b5, b5, [], [(999, [])], "corpus"),
+              mk_db_case(b5, b4, [(999, ["name xxx"])], [], "corpus"),
+              mk_db_case(b4, b5, [], [(999, ["name xxx"])], "corpus"),
+              mk_db_case(b5, b5, [(999, ["name xxx"])], [], "corpus"),
+              mk_db_case(b5, b5, [], [(999, ["name xxx"])], "corpus"),
+              mk_db_case([[(1001, 1003), (1005, 1006), (2000, 2000), (3000, 3000)]],
+                         [[(1001, 1002), (1004, 1006), (2000, 2000), (3000, 3000)]],
+                         [(1001, []), (1003, ["name v1003"]), (1005, ["name v1005"]), (3000, ["name v3000"])],
+                         [(1002, []), (1004, ["name v1004"]), (1006, ["name v1006"]), (3000, ["name v3000"])],
+                         "corpus")]
+    for named in (130, 230, 330):                                   # block on batch line 1 / 2 / 3
+        new = [r for r in iso if r != (100, 100)] + [(4000, 4000)]
+        for st_old, st_new in ((["name users"], None), (["name users"], []), (["name users"], ["name staff"]),
+                               ([], None), (None, ["name users"]), (None, [])):
+            cases.append(mk_db_case(wrap_device(iso), wrap_device(new),
+                                    [] if st_old is None else [(named, st_old)],
+                                    [] if st_new is None else [(named, st_new)], "corpus"))
+        cases.append(mk_db_case(wrap_device(iso), wrap_device([r for r in iso if r[0] != named]),
+                                [(named, ["name users"])], [], "corpus"))
+    # the VLAN leaves the batch but stays / appears as a block (known finding) and its neighbours
+    cases += [mk_db_case([[(10, 10), (20, 20)]], [[(10, 10)]], [], [(20, ["name foo"])], "corpus"),
+              mk_db_case([[(10, 10), (20, 20)]], [[(10, 10)]], [(20, ["name foo"])], [(20, ["name foo"])], "corpus"),
+              mk_db_case([[(10, 10)]], [[(10, 10)]], [(20, ["name foo"])], [(20, ["name foo"])], "corpus"),
+              mk_db_case([], [[(20, 20)]], [(20, ["name x"])], [], "corpus"),
+              mk_db_case([], [], [(20, ["name x"])], [], "corpus"),
+              mk_db_case([], [], [], [(20, [])], "corpus")]
+    n_corpus = len(cases)
+
+    n_rand = 9000 if ctx.thorough else 700
+    hist = {"block_on_first_new_line": 0, "block_on_later_new_line": 0, "block_not_in_new_batch": 0,
+            "block_removed_keeps_options_undone": 0, "block_added": 0, "block_in_both": 0}
+    for i in range(n_rand):
+        shape = rng.random()
+        if shape < 0.45:      # isolated VLANs / short runs: many ranges, wrapped by the device rule
+            so: set[int] = set()
+            for _ in range(rng.randint(1, 38)):
+                a = rng.randint(1, 4094)
+                so.update(range(a, min(4094, a + rng.choice([0, 0, 0, 1, 3])) + 1))
+        elif shape < 0.9:
+            so = random_set(rng, "small")
+        else:
+            so = random_set(rng, "medium")
+        wrap = (lambda rs: wrap_device(rs)) if rng.random() < 0.5 else (lambda rs: random_splitting(rng, rs, 4))
+        old_parts = wrap(ranges_of(so))
+        mode = rng.random()
+        if mode < 0.15:
+            new_parts = [list(p) for p in old_parts]
+            src = "db-same-batch"
+        elif mode < 0.55:
+            sn = set(so)
+            for _ in range(rng.randint(0, 3)):
+                if sn and rng.random() < 0.5:
+                    sn.discard(rng.choice(sorted(sn)))
+                else:
+                    sn.add(rng.randint(1, 4094))
+            new_parts = wrap(ranges_of(sn))
+            src = "db-edited-set"
+        elif mode < 0.8:
+            new_parts = perturb_lines(rng, old_parts, set(so))
+            src = "db-perturbed-lines"
+        else:
+            sn = random_set(rng, rng.choice(["small", "small", "medium"]))
+            if so and rng.random() < 0.6:
+                sn |= set(rng.sample(sorted(so), len(so) // 2))
+            new_parts = wrap(ranges_of(sn))
+            src = "db-independent"
+        so, sn = _vl(old_parts), _vl(new_parts)
+        ob: dict[int, list] = {}
+        nb: dict[int, list] = {}
+        for _ in range(rng.choice([0, 1, 1, 2, 2, 3, 5])):
+            cat = rng.random()
+            if cat < 0.55 and new_parts and (so & sn):
+                # a VLAN that stays: pick the new batch line first (later lines as likely as the first)
+                li = rng.randrange(len(new_parts))
+                pool = sorted(_vl([new_parts[li]]) & so) or sorted(so & sn)
+                n = rng.choice(pool)
+            elif cat < 0.7 and so - sn:
+                n = rng.choice(sorted(so - sn))
+            elif cat < 0.85 and sn - so:
+                n = rng.choice(sorted(sn - so))
+            else:
+                n = rng.randint(1, 4094)
+            if n in ob or n in nb:
+                continue
+            st_old = rng.choice(KID_STATES + [None, None, None])
+            st_new = rng.choice(KID_STATES + [None, None, None, None, None])
+            if st_new is not None and n in so and n not in sn and rng.random() < 0.8:
+                st_new = None          # keep the known-finding class a small share of the stream
+            if st_old is None and st_new is None:
+                continue
+            if st_old is not None:
+                ob[n] = st_old
+            if st_new is not None:
+                nb[n] = st_new
+            on_line = [k for k, p in enumerate(new_parts) if n in _vl([p])]
+            if not on_line:
+                hist["block_not_in_new_batch"] += 1
+            elif on_line[0] == 0:
+                hist["block_on_first_new_line"] += 1
+            else:
+                hist["block_on_later_new_line"] += 1
+            if st_new is None:
+                hist["block_removed_keeps_options_undone"] += bool(on_line and st_old)
+            elif st_old is None:
+                hist["block_added"] += 1
+            else:
+                hist["block_in_both"] += 1
+        cases.append(mk_db_case(old_parts, new_parts, sorted(ob.items()), sorted(nb.items()), src, rng))
+    ctx.coverage["input_distribution"].update({"db_corpus": n_corpus, "db_random": n_rand, "db_blocks": hist})
+    return cases
+
+
+def gen_db_exhaustive(ctx) -> list[dict]:
+    """all pairs of configurations: batch = every subset of a universe x every splitting of its range list into
+    <= 2 (thorough: 3) lines; blocks: VLAN A absent / empty / name a / name b / description d
+    (thorough: x VLAN B absent / name a)"""
+    uni = [1, 2, 4, 6] if ctx.thorough else [1, 2, 4]
+    ida, idb = uni[1], uni[-1]
+    subsets = [[v for i, v in enumerate(uni) if m >> i & 1] for m in range(1 << len(uni))]
+    batches = [sp for s in subsets for sp in all_splittings(ranges_of(s), 3 if ctx.thorough else 2)]
+    blocks = [a + b for a in ([], [(ida, [])], [(ida, ["name a"])], [(ida, ["name b"])], [(ida, ["description d"])])
+              for b in (([], [(idb, ["name a"])]) if ctx.thorough else ([],))]
+    confs = [(p, k) for p in batches for k in blocks]
+    ctx.coverage["input_distribution"]["db_exhaustive"] = len(confs) ** 2
+    ctx.coverage["input_distribution"]["db_exhaustive_scope"] = (
+        f"all pairs of {len(confs)} configurations: `vlan batch` = every subset of {uni} x every splitting of its "
+        f"range list into <= {3 if ctx.thorough else 2} lines; blocks: vlan {ida} absent/empty/name a/name b/"
+        f"description d" + (f" x vlan {idb} absent/name a" if ctx.thorough else ""))
+    return [mk_db_case(o[0], n[0], o[1], n[1], "exhaustive") for o in confs for n in confs]
+
+
+def c_trow(r) -> str:
+    row, kids = (r, []) if isinstance(r, str) else r
+    return cpair(cstr(row), clist(cstr(k) for k in kids))
+
+
+def c_blk(b) -> str:
+    return cpair(cN(b[0]), clist(cstr(k) for k in b[1]))
+
+
+def c_input_db(c: dict) -> str:
+    return cpair(cpair(clist(c_line(l) for l in c["old"]), clist(c_blk(b) for b in c["old_blocks"])),
+                 cpair(clist(c_line(l) for l in c["new"]), clist(c_blk(b) for b in c["new_blocks"])))
+
+
+def c_out_db(o: dict) -> str:
+    return "(Some " + clist(c_trow(r) for r in o["rows"]) + ")" if "rows" in o else "None"
+
+
+def c_case_db(c: dict, o: dict) -> str:
+    given = "None" if c["src"] == "exhaustive" else "(Some " + cpair(
+        clist(c_trow(r) for r in c["old_rows"]), clist(c_trow(r) for r in c["new_rows"])) + ")"
+    return cpair(cpair(c_input_db(c), given), c_out_db(o))
+
+
+def enc_trow(r) -> str:
+    row, kids = (r, []) if isinstance(r, str) else r
+    for x in [row, *kids]:
+        if not x or re.search(r"[|/~>;\n\"]", x) or not x.isascii():
+            raise core.CheckFailure(f"row cannot be encoded in a compact case file: {x!r}")
+    return ">".join([row, *kids])
+
+
+def enc_case_db(i: int, c: dict, o: dict) -> str:
+    """idx|given|out: Coq reads the structured database back from the rows given to the implementation"""
+    given = "/".join(enc_trow(r) for r in c["old_rows"]) + "~" + "/".join(enc_trow(r) for r in c["new_rows"])
+    out = "!" if "exc" in o else "/".join(enc_trow(r) for r in o["rows"])
+    return "|".join([str(i), given, out])
+
+
+def diagnose_db(cases: list[dict], outs: list[dict], idx: list[int]) -> dict[int, str]:
+    if not idx:
+        return {}
+    exprs = [f"diagnose_db {c_input_db(cases[i])} {c_out_db(outs[i])}" for i in idx]
+    vals = core.coq_eval(ID, IMPORTS, exprs, tag="diag_db")
+    return {i: re.sub(r'^"|"(%string)?$', "", v.strip()) for i, v in zip(idx, vals)}
+
+
+class DbStats:
+    def __init__(self):
+        self.seen: set[int] = set()
+        self.n = 0
+        self.nontrivial = 0
+        self.lines: dict[str, int] = {}
+        self.out = {"rows": 0, "exc": 0, "no_commands": 0}
+        self.cmds = {"vlan batch": 0, "undo vlan batch": 0, "vlan N (plain)": 0, "vlan N (block)": 0, "undo vlan N": 0}
+        self.failing = 0
+        self.bad = {l: 0 for l in PREDS_DB}
+        self.classes: dict[str, int] = {}
+        self.samples: list = []
+
+    def add(self, cases, outs):
+        for c, o in zip(cases, outs):
+            self.n += 1
+            key = f"{min(len(c['old']), 5)}->{min(len(c['new']), 5)}"
+            self.lines[key] = self.lines.get(key, 0) + 1
+            if "exc" in o:
+                self.out["exc"] += 1
+                continue
+            self.out["rows" if o["rows"] else "no_commands"] += 1
+            for r, kids in o["rows"]:
+                w = r.split()
+                k = ("undo vlan batch" if w[:3] == ["undo", "vlan", "batch"] else "vlan batch" if w[:2] == ["vlan", "batch"]
+                     else "undo vlan N" if w[0] == "undo" else "vlan N (block)" if kids else "vlan N (plain)")
+                self.cmds[k] += 1
+            h = hash(json.dumps([c["old_rows"], c["new_rows"]]))
+            if h in self.seen:
+                continue
+            self.seen.add(h)
+            if o["rows"] and (c["old_blocks"] or c["new_blocks"]):
+                self.nontrivial += 1
+
+
+DIAG_DB = {0: "ok", 1: "block-kept-but-vlan-dropped-from-batch", 2: "common-vlan-removed", 3: "final-set-differs",
+           4: "raised", 5: "unreadable-command", 6: "outside-domain"}
+
+
+def process_db(ctx, cases: list[dict], stats: DbStats, tag: str) -> None:
+    """implementation on every case; Coq (Spec.P_C11.check_data_db) answers, for every case, which of agree_db /
+    holds_db / struct_is_text_db is false and the class of a failure of the property"""
+    outs = core.run_impl_sharded("c11_runner.py", [db_payload(c) for c in cases])
+    stats.add(cases, outs)
+    stats.samples = [{"input": {"kind": "hw_vlandb", "old_rows": c["old_rows"], "new_rows": c["new_rows"]}, "impl": o}
+                     for c, o in list(zip(cases, outs))[-2:]]
+    per_file = max(60, min(8000, len(cases) // core.NPROC + 1))
+    failing = sorted(run_compact(cases, outs, per_file, tag="compact_" + tag, enc=enc_case_db, check="check_data_db",
+                                 coded=True))
+    stats.failing += len(failing)
+    if any(code == 255 for _, code in failing):
+        raise core.CheckFailure("compact case file (vlan database): a line could not be decoded by Coq")
+    for l, bit in (("agree", 1), ("holds", 2), ("struct_is_text", 4)):
+        stats.bad[l] += sum(1 for _, code in failing if code & bit)
+    bad = [(i, DIAG_DB[code >> 3]) for i, code in failing if code & 2]
+    # smallest failing inputs first: the replay of a class is its simplest member
+    bad.sort(key=lambda t: len(json.dumps([cases[t[0]]["old_rows"], cases[t[0]]["new_rows"]])))
+    seen: dict[str, int] = {}
+    for i, d in bad:
+        seen[d] = seen.get(d, 0) + 1
+        if seen[d] > 5:
+            continue
+        c = cases[i]
+        ctx.add_violation(core.Violation(
+            signature=f"C11/HwVlanDb/{d}",
+            what=f"huawei global VLAN database: old {c['old_rows']} -> new {c['new_rows']}: emitted {outs[i]} ({d})",
+            replay={"case": c, "impl": outs[i]}))
+    for d, n in seen.items():
+        stats.classes[d] = stats.classes.get(d, 0) + n
+    if not bad:
+        for i in [i for i, code in failing if code & 1][:1]:
+            ctx.add_violation(core.Violation(
+                signature="C11/model-impl-disagree/vlan-database",
+                what="Coq model Model.VlanDb.db_rows and the rows of _diff_and_patch differ (correspondence broken); "
+                     "P_C11_db holds on all implementation outputs explored",
+                replay={"correspondence": "Model.VlanDb.db_rows vs annet.api._diff_and_patch (shipped huawei rulebook)",
+                        "case": cases[i], "impl": outs[i]}, no_input=True))
+        for i in [i for i, code in failing if code & 4][:1]:
+            ctx.add_violation(core.Violation(
+                signature="C11/struct-text-model-disagree/vlan-database",
+                what="structured model (theorems) and text-level model differ on a generated case",
+                replay={"correspondence": "Model.VlanDb.db_struct vs Model.VlanDb.db_rows", "case": cases[i]},
+                no_input=True))
+
+
 def run(ctx):
     core.proof_stage(ctx, THEOREM_FILE)
     stats = Stats()
@@ -516,16 +867,27 @@ def run(ctx):
     process(ctx, cases, stats, "main")
     for n, slab in enumerate(gen_exhaustive(ctx)):
         process(ctx, slab, stats, f"exh{n}")
+    dbs = DbStats()
+    db_cases = gen_db_cases(ctx)
+    ctx.rng("order-db").shuffle(db_cases)
+    process_db(ctx, db_cases, dbs, "db")
+    db_samples = dbs.samples
+    process_db(ctx, gen_db_exhaustive(ctx), dbs, "dbx")
     ctx.coverage.update({
-        "evaluations": stats.n,
-        "distinct_nontrivial": stats.nontrivial,
-        "rule": "distinct by (rule kind, old rows, new rows); non-trivial = the two lists differ in at least one "
-                "line and the implementation emitted at least one command row",
-        "samples": stats.samples,
-        "traces_validated_against_impl": stats.n,
-        "disagreements_checked": stats.bad["agree"],
-        "cases_failing_any_predicate": stats.failing,
-        "struct_vs_text_model_mismatches": stats.bad["struct_is_text"],
+        "evaluations": stats.n + dbs.n,
+        "distinct_nontrivial": stats.nontrivial + dbs.nontrivial,
+        "rule": "VLAN lists: distinct by (rule kind, old rows, new rows); non-trivial = the two lists differ in at "
+                "least one line and the implementation emitted at least one command row.  VLAN database: distinct by "
+                "(old rows, new rows); non-trivial = at least one `vlan N` block on either side and at least one "
+                "command row emitted",
+        "samples": stats.samples + db_samples,
+        "traces_validated_against_impl": stats.n + dbs.n,
+        "disagreements_checked": stats.bad["agree"] + dbs.bad["agree"],
+        "cases_failing_any_predicate": stats.failing + dbs.failing,
+        "struct_vs_text_model_mismatches": stats.bad["struct_is_text"] + dbs.bad["struct_is_text"],
+        "vlan_database": {"evaluations": dbs.n, "distinct_nontrivial": dbs.nontrivial, "lines_histogram": dbs.lines,
+                          "outcome_histogram": dbs.out, "emitted_command_histogram": dbs.cmds,
+                          "cases_failing_any_predicate": dbs.failing, "failure_classes": dbs.classes},
         "kind_histogram": stats.kind,
         "lines_histogram": stats.lines,
         "outcome_histogram": stats.out,
@@ -538,11 +900,24 @@ def run(ctx):
         "lines of the old list are pairwise disjoint (a VLAN is written on one line), ranges have lo <= hi",
         "ASCII rows; str.split/isdigit/int modelled for ASCII digits",
         "huawei single: at most one changed line per side (the code asserts it)",
+        "huawei global VLAN database: the VLANs of the device are the union of the `vlan batch` lines and of the "
+        "`vlan N` blocks; `vlan N` (entering the block) creates VLAN N, `undo vlan N` and `undo vlan batch ... N ...` "
+        "wipe it (Model.VlanDb.effect); one block per VLAN id, at most one `name` and one `description` row per block, "
+        "no `undo ...` option rows; theorems additionally: a VLAN with a block in the new configuration that was in "
+        "the old batch is in the new batch (outside: known finding)",
     ]
 
 
 def replay(ctx, doc):
     c = doc["replay"]["case"]
+    if c.get("kind") == "hw_vlandb":
+        c = dict(c, old=[(bool(f), [tuple(r) for r in rs]) for f, rs in c["old"]],
+                 new=[(bool(f), [tuple(r) for r in rs]) for f, rs in c["new"]])
+        out = core.run_impl("c11_runner.py", [db_payload(c)])[0]
+        res = core.run_case_files(ID, TY_DB, IMPORTS, {"holds": "holds_db"}, [c_case_db(c, out)], tag="replay")
+        d = diagnose_db([c], [out], [0])[0]
+        print("impl:", out, "holds:", not res["holds"], "diagnosis:", d)
+        return 1 if res["holds"] else 0
     c = dict(c, old=[(bool(f), [tuple(r) for r in rs]) for f, rs in c["old"]],
              new=[(bool(f), [tuple(r) for r in rs]) for f, rs in c["new"]])
     out = core.run_impl("c11_runner.py", [impl_payload(c)])[0]
